@@ -721,7 +721,13 @@ pub fn get_deposit(
     pool_deposit: &BigNum, // // protocol parameter
     key_deposit: &BigNum,  // protocol parameter
 ) -> Result<Coin, JsError> {
-    internal_get_deposit(&txbody.certs, &pool_deposit, &key_deposit)
+    let mut deposit = internal_get_deposit(&txbody.certs, &pool_deposit, &key_deposit)?;
+    if let Some(voting_proposals) = &txbody.voting_proposals {
+        for i in 0..voting_proposals.len() {
+            deposit = deposit.checked_add(&voting_proposals.get(i).deposit())?;
+        }
+    }
+    Ok(deposit)
 }
 
 #[derive(Debug, Clone, Eq, Ord, PartialEq, PartialOrd)]
